@@ -87,7 +87,9 @@ def gen(tier, rng):
                     out.append(("NETFLOW %s %d %s %s" % (a, st, C.topt(ct), C.tb(body)), "source-literal/flow-content-type"))
             for st in (200, 400):
                 i += 1
-                out.append((line(a, b"a=" + wb, AUTHS[i % 2], "/token?" + "".join(chr(c) for c in wb if chr(c).isalnum()), st, CTS[1], FRAMINGS[i % 4], wb, "none"), "source-literal/body"))
+                # (a target ending in a bare '?' is left out: ureq drops an empty query by itself, an observation of the library)
+                q = "".join(chr(c) for c in wb if chr(c).isalnum())
+                out.append((line(a, b"a=" + wb, AUTHS[i % 2], "/token?" + q if q else "/token", st, CTS[1], FRAMINGS[i % 4], wb, "none"), "source-literal/body"))
         for k in SL.sizes(limit=300000, lo=0):
             for st in (200, 400):
                 for fr in FRAMINGS:
